@@ -53,8 +53,9 @@ func c08sScenario(p c08sParams, bound int) vh.SScenario {
 			}
 			s.AdvanceQuiet(2100 * time.Millisecond)
 		}
+		var in *c08Inst
 		if p.Start == "reached" {
-			in := &c08Inst{s: s, k: k, p: c08Params{p.FT, p.ST, p.MR, 2, 3}}
+			in = &c08Inst{s: s, k: k, p: c08Params{p.FT, p.ST, p.MR, 2, 3}}
 			for _, e := range p.Prefix {
 				in.Step(e)
 			}
@@ -114,6 +115,12 @@ func c08sScenario(p c08sParams, bound int) vh.SScenario {
 		}
 		// recovery script
 		st.mode = "ok"
+		if in != nil && in.held != nil {
+			// the start state has a request in flight at the backend (it stayed there while the
+			// others overlapped): requests succeed again, so does that one
+			k.release(in.held.at)
+			in.held = nil
+		}
 		s.AdvanceQuiet(3100 * time.Millisecond)
 		for i := 0; i < p.ST+p.MR+2; i++ {
 			k.request("10.0.0.1", nil)
